@@ -685,7 +685,7 @@ func (eng *Engine) ifaceNoModFor(fn *ssa.Function) (bool, []string) {
 	}
 	for _, key := range sortedKeys(eng.specs.ifaces) {
 		fc := eng.specs.ifaces[key]
-		if !fc.NoMod || fc.Assumed {
+		if !(fc.NoMod || fc.Pure) || fc.Assumed {
 			continue
 		}
 		parts := strings.Split(key, ".")
